@@ -80,6 +80,66 @@ def dumpStr (m : Mem) : String :=
 /-- parse a section of hex words -/
 def hexList (ws : List String) : Option (List Nat) := ws.mapM parseHex
 
+def resStrR {α} (f : α → String) : Res α → String
+  | .ok a => "ok" ++ f a
+  | .error e => "err " ++ e.str
+
+/-- a call of the concurrent client, as a program returning its rendered result -/
+def parseCall (c : Cfg) (ws : List String) : Option (Prog String) :=
+  match ws with
+  | ["get", o, k, l, f] => do
+    let o ← o.toNat?; let k ← k.toNat?; let l ← optNat l; let f ← optNat f
+    pure (do let r ← get c f ⟨o, k, l⟩; return resStrR (fun (fr, cl) => s!" {fr} {cl}") r)
+  | ["put", f, o, k, l] => do
+    let f ← f.toNat?; let o ← o.toNat?; let k ← k.toNat?; let l ← optNat l
+    pure (do let r ← put c f ⟨o, k, l⟩; return resStrR (fun _ => "") r)
+  | ["drain"] => some (do drain c; return "ok")
+  | ["change", id, mc, mf, cc, op] => do
+    let id ← optNat id; let mc ← optNat mc; let mf ← mf.toNat?; let cc ← optNat cc
+    let op ← (match op with
+      | "on" => some (some Tree.Op.online) | "off" => some (some Tree.Op.offline) | "-" => some none | _ => none)
+    pure (do let r ← changeTree c id mc mf cc op; return resStrR (fun _ => "") r)
+  | ["lget", s, o, f] => do
+    let s ← s.toNat?; let o ← o.toNat?; let f ← optNat f
+    pure (do let r ← Lower.get c.geom s o f; return resStrR (fun fr => s!" {fr}") r)
+  | ["lput", f, o] => do
+    let f ← f.toNat?; let o ← o.toNat?
+    pure (do let r ← Lower.put c.geom retries f o; return resStrR (fun _ => "") r)
+  | _ => none
+
+def concCmd (c : Cfg) (m : Mem) (cs? : Option ConcSt) (cmd : String) (args : List String) :
+    Option (Mem × Option ConcSt × String) :=
+  match cmd, args with
+  | "cthreads", [n] =>
+    match n.toNat? with
+    | some n => some (m, some { threads := Array.replicate n {} }, "ok")
+    | none => some (m, cs?, "bad-op")
+  | "ccall", t :: call =>
+    match t.toNat?, cs?, parseCall c call with
+    | some t, some cs, some p =>
+      match cs.threads[t]? with
+      | some ts => some (m, some { cs with threads := cs.threads.setIfInBounds t { ts with queue := ts.queue ++ [p] } }, "ok")
+      | none => some (m, cs?, "bad-op")
+    | _, _, _ => some (m, cs?, "bad-op")
+  | "cbegin", [t] =>
+    match t.toNat?, cs? with
+    | some t, some cs =>
+      match cs.threads[t]? with
+      | some ts =>
+        let (ts', rets) := ThreadSt.advance 64 ts t []
+        some (m, some { cs with threads := cs.threads.setIfInBounds t ts' },
+          if rets.isEmpty then "ok" else " | ".intercalate rets)
+      | none => some (m, cs?, "bad-op")
+    | _, _ => some (m, cs?, "bad-op")
+  | "cstep", [t] =>
+    match t.toNat?, cs? with
+    | some t, some cs =>
+      let (m', cs', out) := cs.step m t
+      some (m', some cs', out)
+    | _, _ => some (m, cs?, "bad-op")
+  | "cend", [] => some (m, none, "ok")
+  | _, _ => none
+
 def run {α} (st : St) (p : Prog α) : St × Outcome α :=
   let (m, o) := runSolo p st.mem
   ({ st with mem := m }, o)
@@ -225,7 +285,7 @@ def step (st : St) (line : String) : St × String :=
         match evalStep c cmd args with
         | some r => (st, r)
         | none =>
-          match concStep c st.mem st.conc cmd args with
+          match concCmd c st.mem st.conc cmd args with
           | some (m, cs, r) => ({ st with mem := m, conc := cs }, r)
           | none => (st, "bad-op")
 
